@@ -156,7 +156,7 @@ def run(ctx):
         scale = [str(rng.choice(['linear', 'log', 'logicle'])) for _ in range(2)]
         if not isint:
             scale = [x if x != 'log' else 'logicle' for x in scale]
-        nb = int(rng.choice([8, 16, 33, 64])) if rng.random() < 0.85 else None
+        nb = int(rng.choice([8, 16, 33, 64])) if (rng.random() < 0.85 or not isint) else None
         bins = nb if rng.random() < 0.6 else [nb, int(rng.choice([4, 20]))]
         chans = [s.channels[0], s.channels[1]] if rng.random() < 0.5 else [0, 1]
         f = float(rng.choice([0.3, 0.65, 0.9, 1.0, rng.random()]))
